@@ -275,6 +275,14 @@ def childLog (c : Cfg) (orc : Oracle) : List Ev := run orc (execStage c orc) (pr
     program's own -/
 def parseMerge (sectionEnv procEnv : Env) : Env := envUpdate sectionEnv procEnv
 
+/-- the whole loop over the process configurations of a file (in processing order):
+    `env = section.environment[.copy()]; env.update(proc.environment); proc.environment = env`.
+    Whether `env` is a fresh dictionary for every process is GENERATED (`read_config_env_copied`); without the copy all
+    process configurations end up referring to the one dictionary every `update` went into. -/
+def parseMergeAll (copied : Bool) (sectionEnv : Env) (procEnvs : List Env) : List Env :=
+  if copied then procEnvs.map (parseMerge sectionEnv)
+  else procEnvs.map fun _ => procEnvs.foldl envUpdate sectionEnv
+
 /-! ### line protocol -/
 
 def strOfHex (s : String) : Option String :=
@@ -411,6 +419,11 @@ def runCase (cfg : List String) (ops : List String) : List String :=
       match faultsOf items with
       | some fs => " ".intercalate ((childLog c (oracleOf fs)).map showEv)
       | none => "bad-op"
+    | "mergeall" :: a :: bs =>
+      match envOf a, allSome (bs.map envOf) with
+      | some a, some bs => "env " ++ " ".intercalate ((parseMergeAll read_config_env_copied a bs).map fun e =>
+          if e.isEmpty then "-" else ",".intercalate ((sortEnv e).map fun kv => hexS kv.1 ++ ":" ++ hexS kv.2))
+      | _, _ => "bad-op"
     | ["merge", a, b] =>
       match envOf a, envOf b with
       | some a, some b => "env " ++ ",".intercalate ((sortEnv (parseMerge a b)).map fun kv => hexS kv.1 ++ "=" ++ hexS kv.2)
